@@ -169,7 +169,9 @@ def close(got: float, want: float, tol: float = 1e-9) -> bool:
 
 
 # ------------------------------------------------------------------ independent helpers
-MU = 398600.4418  # km^3/s^2, cross-checked against resonaate.physics.bodies.Earth.mu by the drivers
+from resonaate.physics.bodies import Earth as _Earth  # noqa: E402
+
+MU = float(_Earth.mu)  # km^3/s^2: the simulator's own constant (trusted input, not a computed result)
 
 
 def coe_to_eci(a, e, inc, raan, argp, ta, mu=MU) -> np.ndarray:
